@@ -229,10 +229,23 @@ class SCase(object):
         self.ignore, self.filt, self.matched = False, None, None
 
 
+SCAN_SECONDS = 2.0      # a scan / decode of a few hundred octets takes milliseconds
+SPIN = set()            # damaged messages on which a full decode is known not to come back within the limit
+
+
+def spins(c):
+    """case c contains a message already known to keep a full decode busy beyond the time limit"""
+    return (not c.info_only or c.filt is not None) and any(b in SPIN for b in c.cur)
+
+
 def scan_fresh(c, limit, digs=None):
-    """the scan of case c (on the long-lived Decoder of harness/objs.py); digs: list to receive one digest per item"""
+    """the scan of case c (on the long-lived Decoder of harness/objs.py); digs: list to receive one digest per item;
+    outcome 'timeout' when it does not come back within SCAN_SECONDS"""
+    if spins(c):
+        return [], 'timeout'
     return S.impl_scan(c.s, info_only=c.info_only, continue_on_error=c.cont, filter_expr=c.filt[0] if c.filt else None,
-                       ignore_expect=c.ignore, limit=limit, digests=None if digs is None else (digs, digest))
+                       ignore_expect=c.ignore, limit=limit, digests=None if digs is None else (digs, digest),
+                       seconds=SCAN_SECONDS)
 
 
 def scan_model_req(c):
@@ -245,6 +258,8 @@ def oracle(c, items, out, digs=None):
     counters = []
     if out == 'err:other':
         return 'a non-library exception left the generator (after %d items)' % len(items), counters
+    if out == 'timeout':
+        return 'the scan does not come back within %g s (the decoder keeps spinning on a damaged message)' % SCAN_SECONDS, counters
     if out == 'limit':
         return 'the generator yields more items than the stream has messages', counters
     if c.ignore and any(d is not None and d[0].startswith(TOLERANT) for d in c.dmg):
@@ -354,6 +369,8 @@ def shrink_and_sign(c, why):
         w2, _ = oracle(c2, items, out, digs)
         if w2 and w2.split(' (')[0][:60] == what:
             c, why = c2, w2
+            if out == 'timeout':
+                SPIN.add(c2.cur[0])
             break
     return c, why, signature(c, why)
 
@@ -408,8 +425,7 @@ def replay_obj(c, why):
 
 
 
-def run_streams(ctx, drv, treq, rng, nstreams):
-    pool = S.gen_messages(drv, rng, 60, needle_p=0.25)
+def run_streams(ctx, drv, treq, rng, nstreams, pool):
     pool = [m for m in pool if len(m.b) <= 400] or pool
     bad = set(fresh_reference([m.b for m in pool]))
     if bad:
@@ -430,10 +446,13 @@ def run_streams(ctx, drv, treq, rng, nstreams):
     chunk = 400
     for k0 in range(0, len(cases), chunk):
         part = cases[k0:k0 + chunk]
-        res = drv.batch([treq] + [scan_model_req(c) for c in part])[1:]
-        for c, r in zip(part, res):
+        obs = []
+        for c in part:
             digs = []
             items, out = scan_fresh(c, len(c.cur) + 4, digs)
+            obs.append((items, out, digs))
+        res = model_scans(drv, treq, part, [o[1] for o in obs])
+        for c, r, (items, out, digs) in zip(part, res, obs):
             nd = sum(1 for d in c.dmg if d)
             ctx.case({'stream': c.s.hex()[:48], 'damage': [d[0] if d else None for d in c.dmg], 'info_only': c.info_only,
                       'continue': c.cont}, nontrivial=nd >= 1 and nd < len(c.dmg), sample=len(ctx.samples) < 4 and nd >= 1)
@@ -448,6 +467,17 @@ def run_streams(ctx, drv, treq, rng, nstreams):
     return pool, variants
 
 
+def model_scans(drv, treq, cases, outs):
+    """the model's `scan` for every case whose implementation run came back (the model mirrors the code: where the code
+    spins, so does the driver); None for the others"""
+    idx = [k for k, o in enumerate(outs) if o != 'timeout']
+    res = drv.batch([treq] + [scan_model_req(cases[k]) for k in idx], timeout=900)[1:] if idx else []
+    out = [None] * len(cases)
+    for k, r in zip(idx, res):
+        out[k] = r
+    return out
+
+
 def judge_scan(ctx, c, items, out, r, digs=None):
     """oracle on what the implementation delivered for case c, then implementation vs model response r"""
     why, counters = oracle(c, items, out, digs)
@@ -460,6 +490,8 @@ def judge_scan(ctx, c, items, out, r, digs=None):
         c2, w2, sig = shrink_and_sign(c, why)
         ctx.violation('oracle: ' + w2 + (' [%s in %s]' % (sig['exc'], sig['where']) if 'exc' in sig else ''),
                       replay_obj(c2, w2), signature=sig)
+        return
+    if r is None:
         return
     mi = S.model_items(c.s, r)
     if r['outcome'] != out or mi != items:
@@ -561,14 +593,17 @@ def _trunc_star(a):
     return truncation_message(*a)
 
 
-def run_truncation(ctx, drv, treq, rng, nmsgs, ncorpus):
-    import multiprocessing
+def truncation_pool(drv, rng, nmsgs):
     pool = []
     tries = 0
     while len(pool) < nmsgs and tries < 12:
         tries += 1
         pool += [m for m in S.gen_messages(drv, rng, 60, needle_p=0.3) if len(m.b) <= 300]
-    pool = pool[:nmsgs]
+    return pool[:nmsgs]
+
+
+def run_truncation(ctx, drv, treq, rng, pool, ncorpus):
+    import multiprocessing
     jobs = []
     for m in pool:
         ctx.case({'truncate': m.b.hex()[:48], 'len': len(m.b), 'edition': m.edition, 'compressed': m.comp}, nontrivial=True,
@@ -703,8 +738,11 @@ def run_op(dec, op):
     o = Obs()
     o.items, o.exc = [], None
     err = io.StringIO()
+    if (op.case is not None and spins(op.case)) or (op.case is None and not op.info_only and op.data in SPIN):
+        o.out = 'timeout'
+        return o
     try:
-        with contextlib.redirect_stderr(err):
+        with contextlib.redirect_stderr(err), S.time_limit(SCAN_SECONDS):
             if op.kind == 'scan':
                 c = op.case
                 gen = generate_bufr_message(dec, op.data, info_only=op.info_only, continue_on_error=op.cont,
@@ -722,6 +760,10 @@ def run_op(dec, op):
                                 wire_template_data=False, **kw)
                 o.out = 'ok'
                 o.items.append((m.serialized_bytes, digest(m)))
+    except S.Timeout:
+        o.out = 'timeout'
+        if op.case is None:
+            SPIN.add(op.data)
     except Exception as e:  # noqa
         o.out = core.err_tag(e)
         o.exc = S.exc_detail(e)
@@ -778,6 +820,8 @@ def process_oracle(op, o):
     full = not op.info_only
     if o.out == 'err:other':
         return 'a non-library exception left the generator (here: Decoder.process on one message)'
+    if o.out == 'timeout':
+        return 'the scan does not come back within %g s (here: Decoder.process on one message keeps spinning)' % SCAN_SECONDS
     if v is None or v[0] == 'trail':
         want = op.orig if full else op.orig[:-4]
         if o.out != 'ok':
@@ -877,18 +921,7 @@ def run_histories(ctx, drv, treq, rng, pool, variants, nsessions):
             else:
                 ops.append(gen_process_op(rng, sel, variants))
         sessions.append((sel, ops))
-    # the model's answer for every distinct operation that it can express
-    reqs, rkeys = [treq], []
-    seen = set()
-    for sel, ops in sessions:
-        for op in ops:
-            k = op.key()
-            if k in seen or op.kind == 'process-nosig':
-                continue
-            seen.add(k)
-            rkeys.append(k)
-            reqs.append(scan_model_req(op.case) if op.kind == 'scan' else S.scan_req(op.data, op.info_only, False, None, op.ignore))
-    model = dict(zip(rkeys, drv.batch(reqs)[1:]))
+    to_judge = []
     for si, (sel, ops) in enumerate(sessions):
         shared = Decoder()
         ctx.count('history:sessions')
@@ -923,7 +956,7 @@ def run_histories(ctx, drv, treq, rng, pool, variants, nsessions):
                 break       # the Decoder object is no longer in a defined state
             if k not in judged:
                 judged.add(k)
-                judge_op(ctx, op, got, model.get(k))
+                to_judge.append((k, op, got))
             # what later operations of this session come after
             prior.add('lenient' if op.ignore else 'strict')
             prior.add('info' if op.info_only else 'full')
@@ -931,6 +964,14 @@ def run_histories(ctx, drv, treq, rng, pool, variants, nsessions):
             prior.add(op.kind)
             if op.kind == 'scan' and op.case.filt:
                 prior.add('filter')
+    # the model's answer for every distinct operation that it can express and whose implementation run came back
+    # (the model mirrors the code: where the code spins, so does the driver); then oracle + correspondence
+    ask = [(k, op) for k, op, got in to_judge if op.kind != 'process-nosig' and got.out != 'timeout']
+    res = drv.batch([treq] + [scan_model_req(op.case) if op.kind == 'scan' else S.scan_req(op.data, op.info_only, False, None, op.ignore)
+                              for _, op in ask], timeout=900)[1:]
+    model = dict(zip([k for k, _ in ask], res))
+    for k, op, got in to_judge:
+        judge_op(ctx, op, got, model.get(k))
 
 
 def judge_op(ctx, op, got, r):
@@ -990,9 +1031,12 @@ def run_length_sweep(ctx, drv, treq, rng, pool, nmsgs):
             pos, n = secs[i]
             fx = fixed_octets(i, m.edition)
             for v in sweep_values(rng, n, fx):
-                modes = [(False, True), (True, True)]
-                if rng.random() < (0.5 if v < fx else 0.15):
-                    modes += [(False, False), (True, False)]
+                if v < fx or abs(v - n) <= 3:
+                    modes = [(False, True), (True, True)]
+                    if rng.random() < 0.3:
+                        modes += [(False, False), (True, False)]
+                else:
+                    modes = [rng.choice([(False, True), (False, True), (True, True), (False, False), (True, False)])]
                 for io_, cont in modes:
                     c = SCase()
                     c.idx, c.orig = len(cases), None
@@ -1011,10 +1055,13 @@ def run_length_sweep(ctx, drv, treq, rng, pool, nmsgs):
     chunk = 400
     for k0 in range(0, len(cases), chunk):
         part = cases[k0:k0 + chunk]
-        res = drv.batch([treq] + [scan_model_req(c) for c in part])[1:]
-        for c, r in zip(part, res):
+        obs = []
+        for c in part:
             digs = []
             items, out = scan_fresh(c, len(c.cur) + 4, digs)
+            obs.append((items, out, digs))
+        res = model_scans(drv, treq, part, [o[1] for o in obs])
+        for c, r, (items, out, digs) in zip(part, res, obs):
             i, v, n, fx = c.dmg[1][1]
             ctx.case({'sweep': c.cur[1].hex()[:40], 'section': i, 'declared': v, 'real': n, 'info_only': c.info_only,
                       'continue': c.cont}, nontrivial=True, sample=False)
@@ -1116,9 +1163,14 @@ def abort_points(rng, b, ids, ncuts):
 
 def decode_obs(dec, b):
     """-> (outcome, serialized bytes or None, digest or None, subsets for the model comparison or None, exception detail)"""
+    if b in SPIN:
+        return 'timeout', None, None, None, None
     try:
-        with contextlib.redirect_stderr(io.StringIO()):
+        with contextlib.redirect_stderr(io.StringIO()), S.time_limit(SCAN_SECONDS):
             m = dec.process(b, wire_template_data=False)
+    except S.Timeout:
+        SPIN.add(b)
+        return 'timeout', None, None, None, None
     except Exception as e:  # noqa
         return core.err_tag(e), None, None, None, S.exc_detail(e)
     td = m.template_data.value
@@ -1131,6 +1183,63 @@ def aborted_replay(abort, who, probe_b, probe_on, why):
     kind, detail, data = abort
     return {'aborted': {'kind': kind, 'detail': detail, 'hex': data.hex(), 'on': who}, 'probe_hex': probe_b.hex(),
             'probe_on': probe_on, 'why': why}
+
+
+# CoderState attribute -> field of the model's `Regs` (lean/BufrModel/Coder/Regs.lean; None: not carried by the model)
+REGISTERS = [('nbits_offset', 'nbitsOffset'), ('scale_offset', 'scaleOffset'), ('nbits_of_new_refval', 'nbitsNewRefval'),
+             ('new_refvals', 'newRefvals'), ('nbits_of_associated', 'assocStack'),
+             ('nbits_of_skipped_local_descriptor', 'nbitsSkipped'), ('bsr_modifier', 'y207'), ('new_nbytes', 'newNbytes'),
+             ('data_not_present_count', 'dnpCount'), ('status_qa_info_follows', 'qa'), ('bitmap_definition_state', 'bitmapDef'),
+             ('n_031031', 'n031031'), ('bitmapped_descriptors', 'bitmapped'), ('next_bitmapped_descriptor', 'bmIter'),
+             ('back_reference_boundary', 'backBoundary'), ('back_referenced_descriptors', 'backRefs'),
+             ('bitmap', None), ('most_recent_bitmap_is_for_reuse', None)]
+
+
+def coder_state_check():
+    """The tie of `Regs.reset r = {}` (theorem C12_aborted_reset_assigns_every_register) to coder.CoderState: a new
+    state, and a state with every register dirtied after `switch_subset_context`, hold the model's initial values; the
+    mutable registers are objects of their own (what one state appends to is not what the next one starts with).
+    -> list of problems (empty: fine)"""
+    from pybufrkit import coder
+    init = {'nbits_offset': 0, 'scale_offset': 0, 'nbits_of_new_refval': 0, 'new_refvals': {}, 'nbits_of_associated': [],
+            'nbits_of_skipped_local_descriptor': 0, 'bsr_modifier': (0, 0, 1), 'new_nbytes': 0, 'data_not_present_count': 0,
+            'status_qa_info_follows': coder.QA_INFO_NA, 'bitmap_definition_state': coder.BITMAP_NA, 'n_031031': 0,
+            'bitmapped_descriptors': None, 'next_bitmapped_descriptor': None, 'back_reference_boundary': 0,
+            'back_referenced_descriptors': None, 'bitmap': None, 'most_recent_bitmap_is_for_reuse': False}
+
+    def differs(st):
+        out = []
+        for attr, field in REGISTERS:
+            v = getattr(st, attr, 'ABSENT')
+            if attr == 'bsr_modifier' and v != 'ABSENT':
+                v = tuple(v)
+            if v != init[attr]:
+                out.append('%s (model: %s) is %r, initial value %r' % (attr, field, v, init[attr]))
+        return out
+    problems = []
+    try:
+        a = coder.CoderState(False, 1)
+        problems += ['a new CoderState: ' + d for d in differs(a)]
+        # what one state does to its mutable registers
+        a.nbits_of_associated.append(4)
+        a.new_refvals[1001] = 5
+        b = coder.CoderState(True, 2)
+        problems += ['a new CoderState after another one appended to its 204 stack / new reference values: ' + d for d in differs(b)]
+        # every register dirty, then the start of the next subset
+        for attr, _ in REGISTERS:
+            setattr(a, attr, ('dirty', attr))
+        a.switch_subset_context(0)
+        problems += ['a dirtied CoderState after switch_subset_context: ' + d for d in differs(a)]
+    except Exception as e:  # noqa
+        problems.append('CoderState cannot be exercised: %s: %s' % (type(e).__name__, e))
+    return problems
+
+
+def coder_state_violation(ctx, problems, after):
+    why = 'the registers of the coder state are not the initial ones %s: %s' % (after, '; '.join(problems[:3]))
+    ctx.violation('correspondence: ' + why + ' (model: Regs.reset r = {}, theorem C12_aborted_reset_assigns_every_register)',
+                  {'coder_state': problems, 'after': after},
+                  signature={'stage': 'coder-state', 'registers': sorted(set(p.split(': ')[1].split(' ')[0] for p in problems))})
 
 
 def make_decoder(which):
@@ -1205,6 +1314,12 @@ def run_aborted_walks(ctx, drv, treq, rng, pool, nmsgs, ncorpus, ncuts):
     probes_other = [m.b for m in pool[:3]]
     decs = {'plain': Decoder(), 'compiled': Decoder(compiled_template_cache_max=20)}
     healthy = True
+    state_ok = True
+    problems = coder_state_check()
+    ctx.count('aborted:coder-state-checks')
+    if problems:
+        state_ok = False
+        coder_state_violation(ctx, problems, 'in a process that has not aborted any walk')
     model_reqs = {}
     impl_abort = []
     for b, ids, tq, label, m in sel:
@@ -1229,8 +1344,19 @@ def run_aborted_walks(ctx, drv, treq, rng, pool, nmsgs, ncorpus, ncuts):
                            'fault_classes': [fault_class(kind) if kind != 'trunc' else 'truncation'], 'op': 'process', 'compiled': who == 'compiled'}
                     sig.update(exc)
                     ctx.violation('oracle: ' + why, aborted_replay((kind, detail, data), who, b, who, why), signature=sig)
-                if who == 'plain':
+                if out == 'timeout':
+                    why = 'a message damaged by %s (%s) keeps Decoder.process spinning for more than %g s' % (kind, detail, SCAN_SECONDS)
+                    ctx.violation('oracle: ' + why, aborted_replay((kind, detail, data), who, b, who, why),
+                                  signature={'stage': 'oracle', 'what': 'the scan does not come back within %g s' % SCAN_SECONDS,
+                                             'kinds': [kind], 'fault_classes': [fault_class(kind) if kind != 'trunc' else 'truncation']})
+                elif who == 'plain':
                     impl_abort.append((tq, kind, detail, data, out, label))
+                if state_ok:
+                    problems = coder_state_check()
+                    ctx.count('aborted:coder-state-checks')
+                    if problems:
+                        state_ok = False
+                        coder_state_violation(ctx, problems, 'after a decode aborted by %s (%s) on the %s Decoder' % (kind, detail, who))
                 # at once: the valid message on the same object, on the other one; now and then on brand-new ones and
                 # another message
                 todo = [(b, who), (b, 'compiled' if who == 'plain' else 'plain')]
@@ -1274,8 +1400,7 @@ def run_aborted_walks(ctx, drv, treq, rng, pool, nmsgs, ncorpus, ncuts):
 
 # ---------------------------------------------------------------------------------------------
 # (C) command line
-def run_cli(ctx, drv, treq, rng):
-    pool = [m for m in S.gen_messages(drv, rng, 20, needle_p=0.0) if len(m.b) <= 400]
+def run_cli(ctx, drv, treq, rng, pool):
     tmp = tempfile.mkdtemp(prefix='verif_c12_', dir='/tmp')
     env = dict(os.environ, PYTHONPATH=core.REPO)
     try:
@@ -1339,19 +1464,42 @@ def run(ctx):
     import time
     t0 = time.time()
     wall = []
+    # every valid message of the run is generated (through the implementation's Encoder) BEFORE this process decodes
+    # anything damaged: what a broken implementation leaves behind after a failed decode must not reach the generators
+    rs, rt, rc = ctx.rng('streams'), ctx.rng('trunc'), ctx.rng('cli')
+    pool_s = S.gen_messages(drv, rs, 60, needle_p=0.25)
+    pool_t = truncation_pool(drv, rt, 32 if quick else 400)
+    pool_c = [m for m in S.gen_messages(drv, rc, 20, needle_p=0.0) if len(m.b) <= 400]
+    if len(pool_s) < 8 or len(pool_t) < 8 or len(pool_c) < 2:
+        raise core.MachineryError('message generation gives too few valid messages (%d, %d, %d)' % (len(pool_s), len(pool_t), len(pool_c)))
 
     def timed(name, f, *a):
         t = time.time()
-        r = f(*a)
-        wall.append('%s %.1fs' % (name, time.time() - t))
-        return r
-    pool, variants = timed('streams', run_streams, ctx, drv, treq, ctx.rng('streams'), 16 if quick else 160)
+        try:
+            return f(*a)
+        except core.MachineryError:
+            raise
+        except Exception:  # noqa
+            # the harness itself stumbles over the implementation's behaviour.  When violations (with replays) have
+            # been reported already this is one more symptom of the broken implementation, not a machinery problem
+            if not ctx.violations:
+                raise
+            import traceback
+            ctx.notes.append('part `%s` of the check was abandoned after violations had been reported: %s' % (
+                name, traceback.format_exc().strip().split('\n')[-1][:200]))
+            ctx.count('part-abandoned-after-violations:' + name)
+        finally:
+            wall.append('%s %.1fs' % (name, time.time() - t))
+    pool, variants = timed('streams', run_streams, ctx, drv, treq, rs, 16 if quick else 160, pool_s) or (None, None)
+    if pool is None:
+        pool = [m for m in pool_s if len(m.b) <= 400]
+        variants = {id(m): damage_variants(rs, m) for m in pool}
     timed('length sweep', run_length_sweep, ctx, drv, treq, ctx.rng('sweep'), pool, 6 if quick else 30)
     timed('aborted walks', run_aborted_walks, ctx, drv, treq, ctx.rng('aborted'), pool, 5 if quick else 30, 2 if quick else 6,
           24 if quick else 120)
     timed('histories', run_histories, ctx, drv, treq, ctx.rng('history'), pool, variants, 240 if quick else 2400)
-    timed('truncation', run_truncation, ctx, drv, treq, ctx.rng('trunc'), 40 if quick else 400, 4 if quick else 30)
-    timed('cli', run_cli, ctx, drv, treq, ctx.rng('cli'))
+    timed('truncation', run_truncation, ctx, drv, treq, rt, pool_t, 4 if quick else 30)
+    timed('cli', run_cli, ctx, drv, treq, rc, pool_c)
     ctx.notes.append('wall: ' + ', '.join(wall))
 
 
@@ -1372,6 +1520,14 @@ def replay(ctx, path):
         finally:
             shutil.rmtree(tmp, ignore_errors=True)
         print('replay: pybufrkit %s -> %s' % (' '.join(rep['cli']), bad or 'library error reported without a traceback'))
+        return
+    if 'coder_state' in rep:
+        problems = coder_state_check()
+        print('replay: registers of a new / a reset CoderState:', problems or 'the initial values of the model')
+        if problems:
+            coder_state_violation(ctx, problems, 'in a fresh process')
+        else:
+            print('        (the recorded difference appeared %s)' % rep.get('after'))
         return
     if 'aborted' in rep:
         a = rep['aborted']
@@ -1409,7 +1565,7 @@ def replay(ctx, path):
                           rep, signature={'stage': 'history', 'op': op.flags(), 'shared': got.out, 'fresh': fresh.out})
             return
         r = None
-        if op.kind != 'process-nosig':
+        if op.kind != 'process-nosig' and got.out != 'timeout':
             r = drv.batch([treq, scan_model_req(op.case) if op.kind == 'scan' else S.scan_req(op.data, op.info_only, False, None, op.ignore)])[1]
             print('        model:', r)
         judge_op(ctx, op, got, r)
@@ -1439,14 +1595,16 @@ def replay(ctx, path):
             print('replay: with trailing bytes:', fam, m and len(m.serialized_bytes), 'of', len(b))
         return
     c = scase_from_replay(rep)
-    items, out = scan_fresh(c, len(c.cur) + 4)
-    r = drv.batch([treq, scan_model_req(c)])[1]
-    why, counters = oracle(c, items, out)
+    fresh_reference([b for b, d in zip(c.cur, c.dmg) if d is None])
+    digs = []
+    items, out = scan_fresh(c, len(c.cur) + 4, digs)
+    r = model_scans(drv, treq, [c], [out])[0]
+    why, counters = oracle(c, items, out, digs)
     print('replay: damage', c.dmg, '(ignore_value_expectation=%s, filter=%s)' % (c.ignore, c.filt[0] if c.filt else None))
     print('        implementation', out, [len(x) for x in items])
-    print('        model', r['outcome'], r['items'])
+    print('        model', (r['outcome'], r['items']) if r else 'not asked (the model mirrors the code: the driver would spin as well)')
     print('        oracle:', why or 'holds', counters)
     if why:
         ctx.violation('oracle: ' + why, rep, signature=signature(c, why))
-    elif r['outcome'] != out or S.model_items(c.s, r) != items:
+    elif r is not None and (r['outcome'] != out or S.model_items(c.s, r) != items):
         ctx.violation('correspondence: model and implementation differ', rep, signature={'stage': 'correspondence'})
